@@ -117,6 +117,8 @@ type Engine struct {
 	repo      string
 	contractHome map[*Contract]string
 	immutable map[string]bool // pkgpath.Name of package-level variables treated as constants
+	ghostFields map[string][]GhostField // pkgpath.TypeName -> ghost fields
+	ghostFieldHome map[string]string
 	sweepAssumed   map[string][]string
 	sweepUncovered map[string][]string
 }
